@@ -102,6 +102,9 @@ func runFileCase(c *core.Case, spec fileCaseSpec) *core.Result {
 	res := &core.Result{}
 	r := c.R
 	cfg := GenConfig(r, spec.bounded)
+	if c.Idx%9 == 4 {
+		cfg.SyncMode = 3 // txfile.SyncNone: legal configuration for everything but crash safety
+	}
 	p := DefaultGen()
 	if spec.gen != nil {
 		spec.gen(c, &p)
